@@ -80,8 +80,35 @@ def check_text(case, ev):
         _, exc = guarded(anonymize_ip_addr, pa, line)
         if exc is not None:
             return core.exc_finding(exc, case, "prelude/")
-    if case["via"] == "line":
+    if case["via"] == "cli":
+        # through the command line, in either direction; RFC 1918 networks via --preserve-private-addresses
+        import os
+        import shutil
+        import tempfile
 
+        from netconan.netconan import main
+
+        d = tempfile.mkdtemp(prefix="vf-c05-")
+        try:
+            with open(os.path.join(d, "in.cfg"), "w", encoding="utf-8", newline="") as fh:
+                fh.write(line + "\n")
+            argv = ["-i", os.path.join(d, "in.cfg"), "-o", os.path.join(d, "out.cfg"), "-s", cfg["salt"], "-u" if case.get("undo") else "-a", "--preserve-host-bits", str(cfg["B4"])]
+            if cfg["prefixes"]:
+                argv += ["--preserve-prefixes", ",".join(cfg["prefixes"])]
+            nets = list(cfg.get("networks") or [])
+            if all(r in nets for r in G.RFC1918):
+                argv.append("--preserve-private-addresses")
+                nets = [n for n in nets if n not in G.RFC1918]
+            if nets:
+                argv += ["--preserve-addresses", ",".join(nets)]
+            _, exc = guarded(main, argv)
+            got = None
+            if exc is None:
+                got = open(os.path.join(d, "out.cfg"), encoding="utf-8", newline="").read()
+                got = got[:-1] if got.endswith("\n") else got
+        finally:
+            shutil.rmtree(d, ignore_errors=True)
+    elif case["via"] == "line":
         an, exc = guarded(G.mk4, cfg)
         if exc is not None:
             return core.exc_finding(exc, case, "ctor/")
@@ -193,7 +220,19 @@ def _text_case(draw):
     for i in range(len(toks)):
         seps.append(draw(_SEPS) if i < len(toks) - 1 else draw(st.sampled_from(["", " ", " log", ";"])))
     prelude = draw(G.config()) if draw(st.integers(0, 2)) == 0 else None
-    return {"cfg": cfg, "via": draw(st.sampled_from(["line", "io"])), "toks": toks, "seps": seps, "prelude": prelude, "undo": draw(st.integers(0, 3)) == 0}
+    via = draw(st.sampled_from(["line", "io", "line", "io", "cli"]))
+    if via == "cli":
+        if cfg["prefixes"] == []:
+            cfg["prefixes"] = None  # an empty list cannot be given on the command line
+        cfg["salt"] = draw(st.text(alphabet="abcXYZ019_", min_size=0, max_size=6))
+        if draw(st.booleans()):
+            cfg["networks"] = list(G.RFC1918) + (draw(G.cidr_list(max_size=2, lengths=st.integers(8, 32))) if draw(st.booleans()) else [])
+            for i, (n, sp) in enumerate(toks):
+                if draw(st.integers(0, 2)) == 0:
+                    n2 = draw(G.addr_near(G.RFC1918))
+                    toks[i] = [n2, draw(G.v4_spelling(n2))]
+        prelude = None
+    return {"cfg": cfg, "via": via, "toks": toks, "seps": seps, "prelude": prelude, "undo": draw(st.integers(0, 3)) == 0}
 
 
 @st.composite
